@@ -22,6 +22,7 @@ EXPLANATION = (
     "function-local type generic in T; (R6) crate-wide dynamic-borrow typestate "
     "analysis (K4) over all component code. NOT decided: RefCell's own reader-count/writer-flag automaton (trusted), "
     "value visibility after release, interleavings of guards created by user code.")
+EXPLANATION += " " + '(R4 revised) State::holding evaluated over the typed store (K19, three scopes, every registry accessor incl. the entry API answered): the closure receives exactly the T that was taken out while T is absent from the state, afterwards that same T is back in the scope it came from and no placeholder is left, for a succeeding / failing / shadow-inserting closure.'
 ASSUMPTIONS = ["core::cell::RefCell implements the reader-count / writer-flag automaton as documented",
                "Marker<T> in State::holding is a function-local type that no other code can name, so its lookups cannot fail"]
 
